@@ -321,6 +321,8 @@ class TokenStore(Generic[_T]):
         end_handle = _check_store_handle(end, self)
         if start_handle.block is end_handle.block:
             yield from start_handle.block.tokens[start_handle.index:end_handle.index+1]
+        elif start_handle.block.index > end_handle.block.index:
+            return
         else:
             yield from start_handle.block.tokens[start_handle.index:]
             for i in range(start_handle.block.index + 1, end_handle.block.index):
